@@ -5,6 +5,14 @@ ROOT = os.path.dirname(os.path.dirname(os.path.abspath(__file__)))
 
 # id -> (technique, level text, level note, design ref)
 CHECKS = {
+ "C01": ("end-state invariant monitor over the OS model derived from the simulated output stream + kanata's own idle predicates, after a bounded drain; grammar-generated non-latching configs x consistent histories incl. capacity-overflow stress families",
+         "Exploration: ~15k (quick) / 250k (thorough) configurations x 3-6 physically consistent histories each on the real Kanata object; after the last release the processing loop's control flow is emulated until kanata may block, and the OS model must be all-up, silent and idle within 4x(sum of configured numbers)+const ticks and stay so. Capacity families (>=32 queued events, 64 states, 9 concurrent tap-holds, 16 one-shots, 4 macros, chords-v2 bursts) are required to be reached (coverage floors).",
+         "Latching constructs excluded by construction; rpt-any, dynamic macros and tap-hold-except-keys inside virtual keys excluded (self-retriggering / never-timing-out by design); queue-overflowing bursts only on the plain grammar and the chords-v2 family (DESIGN.md section 6 lists the residual classes). Trusted: simulated output backend, OS model.",
+         "DESIGN.md §4 C01"),
+ "C03": ("crash oracle + diagnostic monitor (miette report must render; every label must be a valid range of the file it names) over structure-aware and byte-level mutants of every shipped/doc/test config and of grammar-generated configs, both parser entry points",
+         "Exploration: ~70k (quick) / 2.4M (thorough) texts; the corpus block is identical for every seed. Held = no panic / stack overflow / watchdog hang / bad diagnostic on any generated text; accept/reject is not judged.",
+         "Bounds: 64 KiB, depth 64; duplicate/splice not applied inside deftemplate forms (exponential by design); termination judged by a 20 s watchdog per 12 texts.",
+         "DESIGN.md §4 C03"),
  "C02": ("crash oracle (panic / abort / stack-overflow / watchdog monitor) over grammar-generated accepted configs x hostile histories; overflow-checked and ASan lanes in thorough",
          "Exploration: every action kind in every placement context systematically, then thousands of random full-grammar configurations, each driven by hostile and consistent histories on the real Kanata object in worker processes whose deaths and panics are attributed to the case. Held = no crash on anything generated; no claim about configurations or histories not generated.",
          "Trusted: the simulated-output backend; the harness' process supervision. Excluded: cmd, clipboard, sleeps > 2 ms. Bounded work per step only via a wall-clock watchdog.",
